@@ -83,7 +83,7 @@ def obligations(tier):
             for fv in (0, 1):
                 nmin, nmax = (0, MAXN) if full else (ar, ar)
                 obs.append(insn_ob(tier, "insn.jret.res%d" % fv, code, nmin, nmax, ["H_FRES=%d" % fv], nres=FRES[fv][1], maxops=ar,
-                                   what="; function result types " + FRES[fv][0]))
+                                   accept=fv == 0, what="; function result types " + FRES[fv][0]))   # jret in a function with results: never accepted
         elif code == "SWITCH":
             nmin, nmax = (0, 5) if full else (2, 3)
             obs.append(insn_ob(tier, "insn.switch", code, nmin, nmax))
